@@ -24,6 +24,8 @@ ASSUMPTIONS = [
     "program = sequence of L instructions at addresses 0,4,..; all fields symbolic (register indices 0..31, encodable immediates, even branch/jump offsets)",
     "dynamic instruction cap K=2L+2 executed instructions (loops are cut there; cut paths are counted and excluded)",
     "ecall print-string unwinding bound: %d decisions per ecall (strings of <= 3 characters are always inside)" % progs.ECALL_SITE_BOUND,
+    "at most %d dynamically executed ecalls per path (further ones are cut and counted)" % progs.MAX_DYNAMIC_ECALLS,
+    "paths on which z3 cannot decide the feasibility of a branch within the timeout are cut and counted (a job is inconclusive if that exceeds 2% of its paths)",
     "pc compared modulo 2^32; CSR/FENCE/EBREAK excluded",
 ]
 RULE = "one case = one feasible path through both simulations for one program skeleton (every RAW/WAW distance, x0 pattern, branch direction and target is a path); each path is decided for all register/memory/immediate values"
@@ -34,8 +36,8 @@ def bounds(tier):
     return {
         "alphabet": ALPHABET,
         "reduced_alphabet": REDUCED,
-        "length_mandatory": "L<=2 plus a VERIF_SEED-rotated tenth of L=3" if tier == "quick" else "L<=3",
-        "length_optional": None if tier == "quick" else "L=4 over the reduced alphabet, as far as the wall budget allows",
+        "length_mandatory": "all L<=2 over the alphabet, plus a VERIF_SEED-rotated 1/40 of L=3 without the 'heavy' combinations (ecall inside a possible loop, mul feeding control flow, loaded jump targets), which are left to the thorough tier" if tier == "quick" else "all L<=2 over the alphabet, all L=3 over the reduced alphabet",
+        "length_optional": None if tier == "quick" else "remaining L=3 skeletons (a VERIF_SEED-rotated sixth first) and L=4 over the reduced alphabet, as far as the wall budget allows; skeletons not reached are listed as jobs_skipped_optional",
         "dynamic_instruction_cap_K": "2L+2",
         "single_instruction_programs": "all 46 classes, alone and behind one addi",
     }
@@ -94,6 +96,24 @@ def h_prog(e, mnems, K=None):
 HARNESSES = {"prog": h_prog}
 
 
+def heavy(sk):
+    """skeletons whose path count or solver load is far above average (measured): ecall inside a
+    possible loop, multiplication feeding control flow, loaded values as jump targets"""
+    s = set(sk)
+    ctl = s & {"jal", "jalr", "beq", "blt"}
+    if "ecall" in s and (ctl or sk.count("ecall") > 1):
+        return True
+    if "mul" in s and (s & {"jalr", "beq", "blt", "ecall"}):
+        return True
+    if (s & {"lw", "lb"}) and "jalr" in s:
+        return True
+    return False
+
+
+def l3job(sk, optional):
+    return {"label": "L3:" + ",".join(sk), "harness": "prog", "args": {"mnems": sk}, "timeout_ms": 8000, "cut_on_undecided": True, "cost": 2000000 + 20 + 30 * sk.count("ecall") + 20 * sk.count("jalr"), "validate_every": 3, "optional": optional}
+
+
 def jobs(tier, seed):
     out = []
     from checks.c01 import MNEMONICS
@@ -103,19 +123,33 @@ def jobs(tier, seed):
         if m not in ALPHABET:
             out.append({"label": "two:addi," + m, "harness": "prog", "args": {"mnems": ["addi", m]}, "cost": 4})
     for sk in skeletons(ALPHABET, 2):
-        out.append({"label": "L2:" + ",".join(sk), "harness": "prog", "args": {"mnems": sk}, "cost": 6 + 10 * sk.count("ecall")})
+        out.append({"label": "L2:" + ",".join(sk), "harness": "prog", "args": {"mnems": sk}, "cost": 6 + 10 * sk.count("ecall"), "timeout_ms": 10000, "cut_on_undecided": True})
     l3 = skeletons(ALPHABET, 3)
     if tier == "quick":
-        l3 = [sk for i, sk in enumerate(l3) if (i + seed) % 10 == 0]
-    for sk in l3:
-        out.append({"label": "L3:" + ",".join(sk), "harness": "prog", "args": {"mnems": sk}, "cost": 20 + 30 * sk.count("ecall"), "validate_every": 3})
-    if tier == "thorough":
-        for sk in skeletons(REDUCED, 4):
-            out.append({"label": "L4:" + ",".join(sk), "harness": "prog", "args": {"mnems": sk}, "cost": 1, "optional": True, "validate_every": 10})
+        for i, sk in enumerate(l3):
+            if (i + seed) % 40 == 0 and not heavy(sk):
+                out.append(l3job(sk, False))
+    else:
+        red = set(REDUCED)
+        rest = []
+        for i, sk in enumerate(l3):
+            if all(m in red for m in sk):
+                out.append(l3job(sk, False))
+            else:
+                rest.append((i, sk))
+        # the other L=3 skeletons: a VERIF_SEED-rotated sixth first, then the remainder, all
+        # best-effort under the wall budget (what was not reached is listed in the evidence)
+        rest.sort(key=lambda t: (heavy(t[1]), (t[0] + seed) % 6 != 0, t[0]))
+        for n, (i, sk) in enumerate(rest):
+            j = l3job(sk, True)
+            j["cost"] = 1000000 - n  # keep this order
+            out.append(j)
+        for n, sk in enumerate(skeletons(REDUCED, 4)):
+            out.append({"label": "L4:" + ",".join(sk), "harness": "prog", "args": {"mnems": sk}, "cost": 1000 - n * 0.1, "optional": True, "validate_every": 10, "timeout_ms": 8000, "cut_on_undecided": True})
     return out
 
 
-BUDGET = {"quick": None, "thorough": 25 * 60}
+BUDGET = {"quick": None, "thorough": 22 * 60}
 
 
 def classify(job, label, model):
